@@ -85,7 +85,7 @@ func init() {
 		ID:        "C18",
 		Level:     "model_checking",
 		WorkerBin: "ivgmc-inst",
-		Rule: "engine T: the ivg packages are instrumented from the working tree (a scheduling point at every function entry, loop head, after every statement containing a call and around every statement mentioning a package-level variable); a cooperative scheduler runs one goroutine per body with exactly one runnable at a time and enumerates depth-first ALL schedules with <=2 preemptions for all 36 unordered pairs of 8 bodies (decode->render, transcode, generate->encode, disassemble, viewBox+colour helpers, generate->render->pixels, encode with a shared custom palette, mdicons->encode; self-pairs also on the same source slice) " +
+		Rule: "engine T: the ivg packages are instrumented from the working tree (a scheduling point at every function entry, loop head, after every statement containing a call and around every statement mentioning a package-level variable); a cooperative scheduler runs one goroutine per body with exactly one runnable at a time and enumerates depth-first ALL schedules with <=2 preemptions for all 45 unordered pairs of 9 bodies (decode->render, transcode, generate->encode, disassemble, viewBox+colour helpers, generate->render->pixels, encode with a shared custom palette, mdicons->encode, a zero-value Encoder; self-pairs also on the same source slice) " +
 			"(thorough: <=3 preemptions for self-pairs, 3-thread scenarios with <=1..2 preemptions). On every schedule: each body's result equals its solo result; the hash of the shared-state census (every package-level variable of every linked ivg package, deep through pointers/slices up to capacity/maps, plus the shared source slices, palette and option slice) equals its start value at every context switch and at the end; no panic. " +
 			"Determinism: the deviation-free schedule is run twice per scenario and must give identical step traces. Attached detector: the same bodies, un-instrumented, free-running under -race (16 goroutines x GOMAXPROCS 16, 200 rounds, thorough 3000, each on a fresh instance of the shared data). " +
 			"states = scheduling points reached, transitions = steps executed, evaluations = schedules; non-trivial = schedule in which both threads ran at least one step between two steps of the other",
